@@ -52,7 +52,7 @@ theorem outsideEps_false {p : Policy} {x y : Nat} (h : outsideEps p x y = false)
 
 /-- core: `validate_mutual_close_tx` accepts only `CloseOK` requests -/
 theorem validateMutualClose_ok (p : Policy) (s : Setup) (e : EState) (a : Args)
-    (hf : NonPermissive p) (hmax : p.maxFeerate < U32.MAX) (hw : closeWeight a ≤ 268435456)
+    (hf : NonPermissive p)
     (h : validateMutualClose p s e a = .ok ()) : CloseOK p s e a := by
   have e1 := hf .mutualDestinationAllowlisted (by simp [mutualTags])
   have e2 := hf .mutualNoPendingHtlcs (by simp [mutualTags])
@@ -74,7 +74,7 @@ theorem validateMutualClose_ok (p : Policy) (s : Setup) (e : EState) (a : Args)
     obtain ⟨_, c7, c8⟩ := bind_ok h
     have c1 := check_ok c1 e1
     have c4 := check_ok c4 e2
-    have hfee := validateFee_ok c6 e3 (closeWeight_pos a) hw hmax
+    have hfee := validateFee_ok c6 e3 (closeWeight_pos a)
     refine ⟨?_, hfee, ?_, ?_, ?_, ?_⟩
     · simp at c4
       exact ⟨(htlcsEmpty_iff _ c4.1).1, (htlcsEmpty_iff _ c4.1).2, (htlcsEmpty_iff _ c4.2).1, (htlcsEmpty_iff _ c4.2).2⟩
@@ -108,15 +108,15 @@ theorem validateMutualClose_ok (p : Policy) (s : Setup) (e : EState) (a : Args)
         simp [hs] at this
         exact this
 
-/-- **C07 (main), phase 2, proved part**: `sign_mutual_close_tx_phase2` returns a signature only for a
-    `CloseOK` request (filter keeps the `policy-mutual-*` tags errors; `max_feerate_per_kw` below the
-    `u32::MAX` sentinel; closing weight below 2^28, i.e. scripts shorter than 32 MB). -/
-theorem C07_main_partial (p : Policy) (s : Setup) (e e' : EState) (a : Args)
-    (hf : NonPermissive p) (hmax : p.maxFeerate < U32.MAX) (hw : closeWeight a ≤ 268435456)
+/-- **C07 (main), phase 2**: `sign_mutual_close_tx_phase2` returns a signature only for a `CloseOK`
+    request (filter keeps the `policy-mutual-*` tags errors).  Full strength for the modelled conjuncts:
+    since fix 3751e9c the fee conjunct needs no side condition on `max_feerate_per_kw`. -/
+theorem C07_main (p : Policy) (s : Setup) (e e' : EState) (a : Args)
+    (hf : NonPermissive p)
     (h : signClose2 p s e a = .ok e') : CloseOK p s e a := by
   unfold signClose2 at h
   obtain ⟨_, h1, _⟩ := bind_ok h
-  exact validateMutualClose_ok p s e a hf hmax hw h1
+  exact validateMutualClose_ok p s e a hf h1
 
 /-- **C07 (both entry points)**: whatever phase 1 (`decode_and_validate_mutual_close_tx`) accepts, phase 2
     (`validate_mutual_close_tx`) accepts for the chosen assignment. -/
@@ -131,13 +131,12 @@ theorem C07_both_entry (p : Policy) (s : Setup) (e : EState) (outs : List Out) (
   cases h
   exact (chooseAssignment_ok p s e outs _ hg).1
 
-/-- **C07 (main), phase 1, proved part**: `sign_mutual_close_tx` returns a signature only if one of the two
+/-- **C07 (main), phase 1**: `sign_mutual_close_tx` returns a signature only if one of the two
     readings of the outputs is `CloseOK`, at most two outputs were given, and (filter keeping
     `policy-onchain-format-standard` an error) the transaction handed over *is* the recomposed canonical
     closing transaction. -/
 theorem C07_main_phase1 (p : Policy) (s : Setup) (e e' : EState) (outs : List Out) (np : Nat) (canon : Bool) (a : Args)
     (hf : NonPermissive p) (hfmt : errs p .onchainFormatStandard = true)
-    (hmax : p.maxFeerate < U32.MAX) (hw : closeWeight a ≤ 268435456)
     (h : signClose1 p s e outs np canon = .ok (e', a)) :
     CloseOK p s e a ∧ outs.length ≤ 2 ∧ canon = true ∧
       ∃ l u, candidates p e outs = some (l, u) ∧ (a = l ∨ a = u) := by
@@ -155,7 +154,7 @@ theorem C07_main_phase1 (p : Policy) (s : Setup) (e e' : EState) (outs : List Ou
   cases hd
   have f1 := of_decide_eq_false (hard_ok f1)
   have f2 := check_ok f2 hfmt
-  refine ⟨validateMutualClose_ok p s e a hf hmax hw hv, by omega, by simpa using f2, (chooseAssignment_ok p s e outs a hg).2⟩
+  refine ⟨validateMutualClose_ok p s e a hf hv, by omega, by simpa using f2, (chooseAssignment_ok p s e outs a hg).2⟩
 
 /-- **C07 (closed)**: after either entry point returned a signature the channel is marked closed (and
     nothing else of the enforcement state changed). -/
@@ -188,9 +187,8 @@ theorem C07_closed_blocks_new_commitment (p : Policy) (s : Setup) (c : ChainStat
   have := of_decide_eq_false (check_ok h hf)
   exact this ⟨rfl, hc⟩
 
-/-- C07 inherits the `u32::MAX` sentinel of `estimate_feerate_per_kw`: at full strength (no bound on
-    `max_feerate_per_kw`) the fee conjunct fails.  Funder with 50 BTC closes paying itself 0 and the
-    counterparty 0: the whole channel value is fee and the request is signed. -/
+/-- The former counterexample (finding S1, fixed by 3751e9c): with `max_feerate_per_kw = u32::MAX` a
+    funder holding 50 BTC asks for a close that pays nobody anything (the whole value is fee). -/
 def sentinelPolicy : Policy :=
   { Gen.Policy.defaultTestnet with maxFeerate := U32.MAX, maxChannelSize := 10000000000, onchain := false }
 def sentinelSetup : Setup := ⟨true, 5000000000, 0, 6, 7, .staticRemoteKey, none, false, false⟩
@@ -198,17 +196,10 @@ def sentinelState : EState :=
   { EState.init with curHolderInfo := some ⟨false, 0, 0, [], [], 0⟩, curCpInfo := some ⟨true, 0, 0, [], [], 0⟩,
                      nextHolder := 1, nextCp := 1 }
 
-theorem C07_main_full_false :
-    ¬ (∀ (p : Policy) (s : Setup) (e e' : EState) (a : Args), NonPermissive p → closeWeight a ≤ 268435456 →
-        signClose2 p s e a = .ok e' → CloseOK p s e a) := by
-  intro hall
-  have hnp : NonPermissive sentinelPolicy := by intro t _; rfl
-  have hok : signClose2 sentinelPolicy sentinelSetup sentinelState ⟨0, 0, none, none⟩ = .ok { sentinelState with closed := true } := by
-    rfl
-  obtain ⟨h, c, _, _, _, hfee, _⟩ := hall sentinelPolicy sentinelSetup sentinelState _ ⟨0, 0, none, none⟩ hnp (by decide) hok
-  have := hfee.2.2
-  revert this
-  decide
+/-- … it is now refused with the fee-range class. -/
+theorem C07_sentinel_refused :
+    signClose2 sentinelPolicy sentinelSetup sentinelState ⟨0, 0, none, none⟩ = .error .fee := by
+  rfl
 
 /-! ### hypotheses satisfiable, theorems not vacuous -/
 
@@ -218,7 +209,6 @@ def mainnetPolicy : Policy := { Gen.Policy.defaultMainnet with onchain := false 
 /-- the default filter generated from the source keeps the mutual-close tags (all tags) errors -/
 example : NonPermissive testnetPolicy ∧ errs testnetPolicy .onchainFormatStandard = true := ⟨by intro t _; rfl, rfl⟩
 example : NonPermissive mainnetPolicy ∧ errs mainnetPolicy .onchainFormatStandard = true := ⟨by intro t _; rfl, rfl⟩
-example : testnetPolicy.maxFeerate < U32.MAX ∧ mainnetPolicy.maxFeerate < U32.MAX := by decide
 
 def exSetup : Setup := ⟨true, 3000000, 0, 6, 7, .staticRemoteKey, none, false, false⟩
 def exState : EState :=
